@@ -105,6 +105,12 @@ structure Report where
   quoted : Bool
   deriving DecidableEq, Repr
 
+/-- one statistics message of the reader (`InputStatType::<kind>(value)`), the channel taken as a value -/
+structure Stat where
+  kind : String
+  val : Nat
+  deriving DecidableEq, Repr
+
 /-- `x as i<w>` for an unsigned `x < 2^w`: two's complement -/
 def toSigned (w x : Nat) : Int := if x < 2^(w-1) then (x : Int) else (x : Int) - (2^w : Nat)
 
